@@ -501,3 +501,477 @@ Definition flat_hsps (s : hsps) : list Z :=
   ++ [zb (h_scc_flag s)] ++ flat_opt flat_hspsscc (h_scc s)
   ++ flat_blist (h_ext_data s)
   ++ [zn (fst (himage_size s)); zn (snd (himage_size s))].
+
+(* ====================================================================== PPS (hevc/pps.go) *)
+Local Notation "x <- m ;; k" := (bind m (fun x => k))
+  (at level 61, m at next level, right associativity).
+
+(* int8(x) of a Go int *)
+Definition i8 (z : Z) : Z := ((z + 128) mod 256 - 128)%Z.
+
+Record hppsrange := mkHPpsRange {
+  pr_log2_max_ts : N; pr_cross_comp : bool; pr_cqp_list_enabled : bool; pr_diff_cu_cqp_depth : N;
+  pr_cqp_list_len_minus1 : N; pr_cb_list : list Z; pr_cr_list : list Z;
+  pr_log2_sao_luma : N; pr_log2_sao_chroma : N }.
+
+Record hppsscc := mkHPpsScc {
+  ps_curr_pic_ref : bool; ps_ract : bool; ps_slice_act_qp_present : bool;
+  ps_act_y : Z; ps_act_cb : Z; ps_act_cr : Z;
+  ps_pal_init_present : bool; ps_num_pal_init : N; ps_mono : bool; ps_luma_bd : N; ps_chroma_bd : N;
+  ps_pal_init : list (list N) }.
+
+Record hpps := mkHPps {
+  pp_id : N; pp_sps_id : N; pp_dep_slices : bool; pp_output_flag_present : bool; pp_num_extra_bits : N;
+  pp_sign_hiding : bool; pp_cabac_init_present : bool; pp_l0 : N; pp_l1 : N; pp_init_qp : Z;
+  pp_constrained_intra : bool; pp_transform_skip : bool; pp_cu_qp_delta : bool;
+  pp_diff_cu_qp_delta_depth : N; pp_cb_qp : Z; pp_cr_qp : Z; pp_slice_chroma_qp_present : bool;
+  pp_weighted_pred : bool; pp_weighted_bipred : bool; pp_transquant_bypass : bool;
+  pp_tiles : bool; pp_entropy_sync : bool; pp_tile_cols : N; pp_tile_rows : N; pp_uniform : bool;
+  pp_col_widths : list N; pp_row_heights : list N; pp_lf_across_tiles : bool;
+  pp_lf_across_slices : bool; pp_dbf_control : bool; pp_dbf_override_enabled : bool;
+  pp_dbf_disabled : bool; pp_beta : Z; pp_tc : Z; pp_scaling_data : bool; pp_lists_mod : bool;
+  pp_log2_par_merge : N; pp_slice_ext_present : bool; pp_ext_present : bool;
+  pp_range_flag : bool; pp_range : option hppsrange; pp_ml_flag : bool; pp_3d_flag : bool;
+  pp_scc_flag : bool; pp_scc : option hppsscc; pp_ext4 : N; pp_ext_data : list bool }.
+
+(* SliceHeader; s_rplm = (flag_l0, list_entry_l0, flag_l1, list_entry_l1);
+   s_pwt = (luma_log2_weight_denom, delta_chroma_log2_weight_denom, WeightsL0, WeightsL1) *)
+Record hpwt := mkHPwt {
+  pw_luma_flag : bool; pw_chroma_flag : bool; pw_dlw : Z; pw_lo : Z;
+  pw_dcw0 : Z; pw_dcw1 : Z; pw_dco0 : Z; pw_dco1 : Z }.
+
+Record hslice := mkHSlice {
+  s_type : N; s_first : bool; s_no_output_prior : bool; s_pps_id : N; s_dependent : bool;
+  s_address : N; s_pic_output : bool; s_colour_plane : N; s_poc_lsb : N; s_st_sps_flag : bool;
+  s_st_rps : hrps; s_st_idx : N; s_num_lt_sps : N; s_num_lt_pics : N; s_lt : list hlt;
+  s_tmvp : bool; s_sao_luma : bool; s_sao_chroma : bool; s_override : bool; s_l0 : N; s_l1 : N;
+  s_rplm : option (bool * list N * bool * list N);
+  s_mvd_l1_zero : bool; s_cabac_init : bool; s_collocated_from_l0 : bool; s_collocated_ref_idx : N;
+  s_pwt : option (N * Z * list hpwt * list hpwt);
+  s_five_minus : N; s_use_integer_mv : bool; s_qp_delta : Z; s_cb : Z; s_cr : Z;
+  s_act_y : Z; s_act_cb : Z; s_act_cr : Z; s_cu_chroma_qp_enabled : bool;
+  s_dbf_override : bool; s_dbf_disabled : bool; s_beta : Z; s_tc : Z; s_lf_across : bool;
+  s_num_entry : N; s_offset_len_minus1 : N; s_entry_points : list N;
+  s_ext_len : N; s_ext_bytes : list N; s_size : N }.
+
+Definition hlt_zero : hlt := mkHLt 0 false false 0.
+
+(* ceilDiv on uint *)
+Definition ceil_div (a b : N) : N := u64 (a + b + 18446744073709551615) / b.
+
+Section HParsers2.
+  Context {St : Type} (R : reader St) (bib : St -> N).
+  Local Notation M := (@M St).
+
+  (* ---- parseRangeExtension *)
+  Definition hparse_pps_range (transform_skip : bool) : M hppsrange :=
+    ts <- (if transform_skip then rd_ue R else ret 0) ;;
+    cc <- rd_flag R ;;
+    ce <- rd_flag R ;;
+    cq <- (if ce then
+             d <- rd_ue R ;; l <- rd_ue R ;;
+             es <- rep_until_err_n R (l + 1) (a <- rd_se R ;; b <- rd_se R ;; ret (i8 a, i8 b)) ;;
+             ret (d, l, es)
+           else ret (0, 0, [])) ;;
+    sl <- rd_ue R ;;
+    sc <- rd_ue R ;;
+    e <- get_err R ;;
+    if e then fail else
+    let '(d, l, es) := cq in
+    ret (mkHPpsRange ts cc ce d l (map fst es) (map snd es) sl sc).
+
+  (* ---- parseSccExtension (PPS) *)
+  Definition hparse_pps_scc : M hppsscc :=
+    cpr <- rd_flag R ;;
+    ract <- rd_flag R ;;
+    act <- (if ract then p <- rd_flag R ;; a <- rd_se R ;; b <- rd_se R ;; c <- rd_se R ;; ret (p, a, b, c)
+            else ret (false, 0%Z, 0%Z, 0%Z)) ;;
+    pip <- rd_flag R ;;
+    pal <- (if pip then
+              n <- rd_ue R ;;
+              if 0 <? n then
+                mono <- rd_flag R ;;
+                lb <- rd_ue R ;;
+                cb <- (if negb mono then rd_ue R else ret 0) ;;
+                if (8 <? lb) || (8 <? cb) then fail else
+                luma <- rep_until_err_n R n (rd R (u64 (lb + 8))) ;;
+                chr <- (if mono then ret []
+                        else c1 <- rep_until_err_n R n (rd R (u64 (cb + 8))) ;;
+                             c2 <- rep_until_err_n R n (rd R (u64 (cb + 8))) ;;
+                             ret [c1; c2]) ;;
+                ret (n, mono, lb, cb, luma :: chr)
+              else ret (n, false, 0, 0, [])
+            else ret (0, false, 0, 0, [])) ;;
+    e <- get_err R ;;
+    if e then fail else
+    let '(sp, ay, acb, acr) := act in
+    let '(n, mono, lb, cb, ini) := pal in
+    ret (mkHPpsScc cpr ract sp ay acb acr pip n mono lb cb ini).
+
+  (* ---- ParsePPSNALUnit; spsmap id = the id is a key of spsMap.  The multilayer and 3D extensions
+     (parseMultilayerExtension with the colour mapping octants, parse3dExtension) are NOT modelled:
+     OutOfFuel. *)
+  Definition hparse_pps (spsmap : N -> bool) : M hpps :=
+    hdr <- rd R 16 ;;
+    if negb (hnalu_type hdr =? 34) then fail else
+    id <- rd_ue R ;;
+    sid <- rd_ue R ;;
+    if negb (spsmap (u32 sid)) then fail else
+    dep <- rd_flag R ;;
+    ofp <- rd_flag R ;;
+    neb <- rd R 3 ;;
+    sdh <- rd_flag R ;;
+    cip <- rd_flag R ;;
+    l0 <- rd_ue R ;;
+    l1 <- rd_ue R ;;
+    iqp <- rd_se R ;;
+    cintra <- rd_flag R ;;
+    tskip <- rd_flag R ;;
+    cuqp <- rd_flag R ;;
+    dcq <- (if cuqp then rd_ue R else ret 0) ;;
+    cbq <- rd_se R ;;
+    crq <- rd_se R ;;
+    scq <- rd_flag R ;;
+    wp <- rd_flag R ;;
+    wb <- rd_flag R ;;
+    tqb <- rd_flag R ;;
+    tiles <- rd_flag R ;;
+    ecs <- rd_flag R ;;
+    tl <- (if tiles then
+             nc <- rd_ue R ;; nr <- rd_ue R ;; un <- rd_flag R ;;
+             wh <- (if negb un then
+                      ws <- rep_until_err_n R nc (rd_ue R) ;;
+                      hs <- rep_until_err_n R nr (rd_ue R) ;;
+                      ret (ws, hs)
+                    else ret ([], [])) ;;
+             lft <- rd_flag R ;;
+             ret (nc, nr, un, wh, lft)
+           else ret (0, 0, false, ([], []), false)) ;;
+    let '(nc, nr, un, (ws, hs), lft) := tl in
+    lfs <- rd_flag R ;;
+    dbc <- rd_flag R ;;
+    db <- (if dbc then
+             ov <- rd_flag R ;; dis <- rd_flag R ;;
+             bt <- (if negb dis then a <- rd_se R ;; b <- rd_se R ;; ret (i8 a, i8 b) else ret (0%Z, 0%Z)) ;;
+             ret (ov, dis, bt)
+           else ret (false, false, (0%Z, 0%Z))) ;;
+    let '(dov, ddis, (beta, tc)) := db in
+    sld <- rd_flag R ;;
+    u0 <- (if sld then hskip_scaling_list_data R else ret tt) ;;
+    lm <- rd_flag R ;;
+    pml <- rd_ue R ;;
+    she <- rd_flag R ;;
+    ep <- rd_flag R ;;
+    fl <- (if ep then a <- rd_flag R ;; b <- rd_flag R ;; c <- rd_flag R ;; d <- rd_flag R ;;
+                      e <- rd R 4 ;; ret (a, b, c, d, u8 e)
+           else ret (false, false, false, false, 0)) ;;
+    let '(rf, mf, df, sf, e4) := fl in
+    e <- get_err R ;;
+    if e then fail else
+    rg <- (if rf then x <- hparse_pps_range tskip ;; ret (Some x) else ret None) ;;
+    if mf || df then out_of_fuel else
+    sc <- (if sf then x <- hparse_pps_scc ;; ret (Some x) else ret None) ;;
+    ed <- (if 0 <? e4 then hext_data_loop R ext_fuel [] else ret []) ;;
+    hparse_end R
+      (mkHPps (u32 id) (u32 sid) dep ofp (u8 neb) sdh cip (u8 l0) (u8 l1) (i8 iqp) cintra tskip cuqp dcq
+              (i8 cbq) (i8 crq) scq wp wb tqb tiles ecs nc nr un ws hs lft lfs dbc dov ddis beta tc
+              sld lm pml she ep rf rg mf df sf sc e4 ed).
+
+  (* ====================================================================== slice header (hevc/slice.go) *)
+  (* ShortTermRPS.countInUsePics (uint8) *)
+  Definition hcount_in_use (r : hrps) : N := u8 (countb (rps_u0 r) + countb (rps_u1 r)).
+
+  (* the loop over num_long_term_sps + num_long_term_pics entries; npt = NumPicTotalCurr (uint8) *)
+  Fixpoint hlt_loop (cnt : nat) (i nlsps : N) (sp : hsps) (acc : list hlt) (npt : N) : M (list hlt * N) :=
+    match cnt with
+    | O => ret (acc, npt)
+    | S c =>
+        lt0 <- (if i <? nlsps then
+                  if 1 <? h_num_lt sp then
+                    ix <- rd R (ceil_log2 (h_num_lt sp)) ;;
+                    match nth_error (h_lt sp) (N.to_nat ix) with
+                    | None => fail                          (* "lt_idx_sps > num_long_term_ref_pics_sps" *)
+                    | Some l => ret l
+                    end
+                  else
+                    (* repaired text (fix commit, see known_findings/C15.json): lt_idx_sps is inferred 0 *)
+                    match nth_error (h_lt sp) 0 with
+                    | None => fail
+                    | Some l => ret l
+                    end
+                else
+                  p <- rd R (u8 (h_log2_poc sp + 4)) ;; u <- rd_flag R ;; ret (mkHLt (u16 p) u false 0)) ;;
+        let npt1 := if lt_used lt0 then u8 (npt + 1) else npt in
+        msb <- rd_flag R ;;
+        cyc <- (if msb then rd_ue R else ret 0) ;;
+        let lt := mkHLt (lt_poc_lsb lt0) (lt_used lt0) msb cyc in
+        e <- get_err R ;;
+        if e then ret (acc ++ [lt], npt1) else hlt_loop c (i + 1) nlsps sp (acc ++ [lt]) npt1
+    end.
+
+  (* parseRefPicListsModification *)
+  Definition hparse_rplm (is_b : bool) (l0 l1 npt : N) : M (bool * list N * bool * list N) :=
+    f0 <- rd_flag R ;;
+    e0 <- (if f0 then rep_n (u8 (l0 + 1)) (x <- rd R (ceil_log2 npt) ;; ret (u8 x)) else ret []) ;;
+    b <- (if is_b then
+            f1 <- rd_flag R ;;
+            e1 <- (if f1 then rep_n (u8 (l1 + 1)) (x <- rd R (ceil_log2 npt) ;; ret (u8 x)) else ret []) ;;
+            ret (f1, e1)
+          else ret (false, [])) ;;
+    e <- get_err R ;;
+    if e then fail else ret (f0, e0, fst b, snd b).
+
+  (* the third loop of parsePredWeightTable for one list *)
+  Definition hparse_pwt_values (fl : bool * bool) : M hpwt :=
+    lw <- (if fst fl then a <- rd_se R ;; b <- rd_se R ;; ret (i8 a, b) else ret (0%Z, 0%Z)) ;;
+    cw <- (if snd fl then a <- rd_se R ;; b <- rd_se R ;; c <- rd_se R ;; d <- rd_se R ;;
+                          ret (i8 a, b, i8 c, d)
+           else ret (0%Z, 0%Z, 0%Z, 0%Z)) ;;
+    let '(w0, o0, w1, o1) := cw in
+    ret (mkHPwt (fst fl) (snd fl) (fst lw) (snd lw) w0 w1 o0 o1).
+
+  Definition hparse_pwt_list (cat_nz : bool) (cnt : N) : M (list hpwt) :=
+    lf <- rep_n cnt (rd_flag R) ;;
+    cf <- (if cat_nz then rep_n cnt (rd_flag R) else ret (map (fun _ => false) lf)) ;;
+    mapM (St:=St) hparse_pwt_values (combine lf cf).
+
+  Definition hparse_pwt (is_b cat_nz : bool) (l0 l1 : N) : M (N * Z * list hpwt * list hpwt) :=
+    ld <- rd_ue R ;;
+    dc <- (if cat_nz then x <- rd_se R ;; ret (i8 x) else ret 0%Z) ;;
+    w0 <- hparse_pwt_list cat_nz (u8 (l0 + 1)) ;;
+    w1 <- (if is_b then hparse_pwt_list cat_nz (u8 (l1 + 1)) else ret []) ;;
+    e <- get_err R ;;
+    if e then fail else ret (u8 ld, dc, w0, w1).
+
+  (* `for r.NrBitsReadInCurrentByte() < 8 { if r.ReadFlag() { error } }` *)
+  Fixpoint halign_loop (fuel : nat) : M unit :=
+    match fuel with
+    | O => out_of_fuel
+    | S f => fun s => if bib s <? 8
+                      then (b <- rd_flag R ;; if b then fail else halign_loop f) s
+                      else Ok (tt, s)
+    end.
+
+  Definition hslice_main_zero :=
+    (0, false, 0, 0, false, hrps_zero, 0, (0, 0, @nil hlt), false, (false, false),
+     (false, 0, 0, @None (bool * list N * bool * list N), false, false, true, 0,
+      @None (N * Z * list hpwt * list hpwt), 0, false),
+     (0%Z, 0%Z, 0%Z, 0%Z, 0%Z, 0%Z, false), (false, false, 0%Z, 0%Z, false)).
+
+  (* the part of the header that precedes slice_type .. slice_loop_filter_across_slices_enabled_flag,
+     i.e. the block `if !sh.DependentSliceSegmentFlag { ... }` *)
+  Definition hparse_slice_main (nt : N) (sp : hsps) (pp : hpps) :=
+    let cat := if h_sep_plane sp && (h_chroma sp =? 3) then 0 else h_chroma sp in
+    let cat_nz := negb (cat =? 0) in
+    let idr := (nt =? 19) || (nt =? 20) in
+    xs <- rep_n (pp_num_extra_bits pp) (rd_flag R) ;;
+    st <- rd_ue R ;;
+    pof <- (if pp_output_flag_present pp then rd_flag R else ret false) ;;
+    cpl <- (if h_sep_plane sp then x <- rd R 2 ;; ret (u8 x) else ret 0) ;;
+    rf <- (if negb idr then
+             poc <- rd R (u8 (h_log2_poc sp + 4)) ;;
+             stf <- rd_flag R ;;
+             rp <- (if negb stf then
+                      r <- hparse_st_rps R (h_num_st_rps sp) (h_num_st_rps sp) (h_st_rps sp) ;;
+                      e <- get_err R ;;
+                      if e then fail else ret (r, 0)
+                    else if 1 <? h_num_st_rps sp then
+                      ix <- rd R (ceil_log2 (h_num_st_rps sp)) ;;
+                      match nth_error (h_st_rps sp) (N.to_nat (u8 ix)) with
+                      | None => fail
+                      | Some r => ret (r, u8 ix)
+                      end
+                    else
+                      (* repaired text (fix commit): with one set in the SPS short_term_ref_pic_set_idx is inferred 0 *)
+                      match nth_error (h_st_rps sp) 0 with
+                      | None => ret (hrps_zero, 0)
+                      | Some r => ret (r, 0)
+                      end) ;;
+             let npt0 := hcount_in_use (fst rp) in
+             lt <- (if h_lt_present sp then
+                      nls <- (if 0 <? h_num_lt sp then x <- rd_ue R ;; ret (u8 x) else ret 0) ;;
+                      nlp <- rd_ue R ;;
+                      if loop_bound <? u64 (nls + nlp) then out_of_fuel else
+                      r <- hlt_loop (N.to_nat (u64 (nls + nlp))) 0 nls sp [] npt0 ;;
+                      ret (nls, nlp, fst r, snd r)
+                    else ret (0, 0, [], npt0)) ;;
+             tm <- (if h_tmvp sp then rd_flag R else ret false) ;;
+             let '(nls, nlp, lts, npt) := lt in
+             ret (u16 poc, stf, fst rp, snd rp, (nls, nlp, lts), tm, npt)
+           else ret (0, false, hrps_zero, 0, (0, 0, []), false, 0)) ;;
+    let '(poc, stf, rps, stidx, ltinfo, tmvp, npt) := rf in
+    sao <- (if h_sao sp then
+              a <- rd_flag R ;; b <- (if cat_nz then rd_flag R else ret false) ;; ret (a, b)
+            else ret (false, false)) ;;
+    let is_p := st =? 1 in
+    let is_b := st =? 0 in
+    inter <- (if is_p || is_b then
+                ov <- rd_flag R ;;
+                nr <- (if ov then
+                         a <- rd_ue R ;;
+                         b <- (if is_b then x <- rd_ue R ;; ret (u8 x) else ret (pp_l1 pp)) ;;
+                         ret (u8 a, b)
+                       else ret (pp_l0 pp, pp_l1 pp)) ;;
+                let '(l0, l1) := nr in
+                if (14 <? l0) || (14 <? l1) then fail else
+                rplm <- (if pp_lists_mod pp then
+                           let npt1 := match pp_scc pp with
+                                       | Some sc => if ps_curr_pic_ref sc then u8 (npt + 1) else npt
+                                       | None => npt
+                                       end in
+                           if 1 <? npt1 then x <- hparse_rplm is_b l0 l1 npt1 ;; ret (Some x)
+                           else ret None
+                         else ret None) ;;
+                mvd <- (if is_b then rd_flag R else ret false) ;;
+                cab <- (if pp_cabac_init_present pp then rd_flag R else ret false) ;;
+                col <- (if tmvp then
+                          cf <- (if is_b then rd_flag R else ret true) ;;
+                          ci <- (if (cf && (0 <? l0)) || (negb cf && (0 <? l1))
+                                 then x <- rd_ue R ;; ret (u8 x) else ret 0) ;;
+                          ret (cf, ci)
+                        else ret (true, 0)) ;;
+                pw <- (if (pp_weighted_pred pp && is_p) || (pp_weighted_bipred pp && is_b)
+                       then x <- hparse_pwt is_b cat_nz l0 l1 ;; ret (Some x) else ret None) ;;
+                fm <- rd_ue R ;;
+                im <- (match h_scc sp with
+                       | Some sc => if ss_mv_res_idc sc =? 2 then rd_flag R else ret false
+                       | None => ret false
+                       end) ;;
+                ret (ov, l0, l1, rplm, mvd, cab, fst col, snd col, pw, u8 fm, im)
+              else ret (false, 0, 0, None, false, false, true, 0, None, 0, false)) ;;
+    qpd <- rd_se R ;;
+    cq <- (if pp_slice_chroma_qp_present pp then a <- rd_se R ;; b <- rd_se R ;; ret (i8 a, i8 b)
+           else ret (0%Z, 0%Z)) ;;
+    aq <- (match pp_scc pp with
+           | Some sc => if ps_slice_act_qp_present sc
+                        then a <- rd_se R ;; b <- rd_se R ;; c <- rd_se R ;; ret (i8 a, i8 b, i8 c)
+                        else ret (0%Z, 0%Z, 0%Z)
+           | None => ret (0%Z, 0%Z, 0%Z)
+           end) ;;
+    ccq <- (match pp_range pp with
+            | Some rg => if pr_cqp_list_enabled rg then rd_flag R else ret false
+            | None => ret false
+            end) ;;
+    dov <- (if pp_dbf_override_enabled pp then rd_flag R else ret false) ;;
+    (* repaired text (fix commit): slice_deblocking_filter_disabled_flag is inferred from the PPS *)
+    db <- (if dov then
+             dis <- rd_flag R ;;
+             bt <- (if negb dis then a <- rd_se R ;; b <- rd_se R ;; ret (i8 a, i8 b) else ret (0%Z, 0%Z)) ;;
+             ret (dis, bt)
+           else ret (pp_dbf_disabled pp, (0%Z, 0%Z))) ;;
+    let '(ddis, (beta, tc)) := db in
+    lfa <- (if pp_lf_across_slices pp && (fst sao || snd sao || negb ddis) then rd_flag R else ret false) ;;
+    let '(acy, acb, acr) := aq in
+    ret (st, pof, cpl, poc, stf, rps, stidx, ltinfo, tmvp, sao, inter,
+         (qpd, fst cq, snd cq, acy, acb, acr, ccq), (dov, ddis, beta, tc, lfa)).
+
+  Definition hparse_slice (spsmap : N -> option hsps) (ppsmap : N -> option hpps) : M hslice :=
+    hdr <- rd R 16 ;;
+    let nt := hnalu_type hdr in
+    first <- rd_flag R ;;
+    nop <- (if (16 <=? nt) && (nt <=? 23) then rd_flag R else ret false) ;;
+    ppsid <- rd_ue R ;;
+    match ppsmap (u32 ppsid) with
+    | None => fail
+    | Some pp =>
+    match spsmap (pp_sps_id pp) with
+    | None => fail
+    | Some sp =>
+    seg <- (if negb first then
+              dep <- (if pp_dep_slices pp then rd_flag R else ret false) ;;
+              let shift := u8 (h_log2_min_cb sp + 3 + h_log2_diff_cb sp) in
+              let ctb := if shift <? 64 then 2 ^ shift else 0 in
+              if ctb =? 0 then fail else
+              let size := u64 (ceil_div (h_width sp) ctb * ceil_div (h_height sp) ctb) in
+              a <- rd R (ceil_log2 size) ;;
+              ret (dep, a)
+            else ret (false, 0)) ;;
+    let '(dep, addr) := seg in
+    mn <- (if negb dep then hparse_slice_main nt sp pp else ret hslice_main_zero) ;;
+    let '(st, pof, cpl, poc, stf, rps, stidx, (nls, nlp, lts), tmvp, (saol, saoc),
+          (ov, l0, l1, rplm, mvd, cab, cfl0, cri, pw, fm, im),
+          (qpd, cbq, crq, acy, acb, acr, ccq), (dov, ddis, beta, tc, lfa)) := mn in
+    ep <- (if pp_tiles pp || pp_entropy_sync pp then
+             n <- rd_ue R ;;
+             if 0 <? n then
+               olm <- rd_ue R ;;
+               if 31 <? olm then fail else
+               es <- rep_until_err_n R n (x <- rd R (u8 olm + 1) ;; ret (u32 x)) ;;
+               ret (n, u8 olm, es)
+             else ret (n, 0, [])
+           else ret (0, 0, [])) ;;
+    let '(nep, olm, eps) := ep in
+    ex <- (if pp_slice_ext_present pp then
+             l <- rd_ue R ;;
+             bs <- rep_n (u16 l) (x <- rd R 8 ;; ret (u8 x)) ;;
+             ret (u16 l, bs)
+           else ret (0, [])) ;;
+    ab <- rd_flag R ;;
+    if negb ab then fail else
+    u0 <- halign_loop 9 ;;
+    e <- get_err R ;;
+    if e then fail else
+    nb <- get_nbytes R ;;
+    ret (mkHSlice st first nop (u32 ppsid) dep addr pof cpl poc stf rps stidx nls nlp lts tmvp saol saoc
+                  ov l0 l1 rplm mvd cab cfl0 cri pw fm im qpd cbq crq acy acb acr ccq dov ddis beta tc lfa
+                  nep olm eps (fst ex) (snd ex) (u32 nb))
+    end end.
+
+End HParsers2.
+
+Definition er_bib (s : rstate) : N := 8 - rn s.
+Definition br_bib (s : bstate) : N := if bpos s mod 8 =? 0 then 8 else bpos s mod 8.
+
+Definition hparse_pps_er (spsmap : N -> bool) (nalu : list N) : res hpps := run (hparse_pps ER spsmap) (rinit nalu).
+Definition hparse_pps_br (spsmap : N -> bool) (nalu : list N) : res hpps := run (hparse_pps BR spsmap) (binit nalu).
+Definition hparse_slice_er spsmap ppsmap (nalu : list N) : res hslice :=
+  run (hparse_slice ER er_bib spsmap ppsmap) (rinit nalu).
+Definition hparse_slice_br spsmap ppsmap (nalu : list N) : res hslice :=
+  run (hparse_slice BR br_bib spsmap ppsmap) (binit nalu).
+
+(* ------------------------------------------------------------------ flattening *)
+Definition flat_zlist (l : list Z) : list Z := flat_list (fun z => [z]) l.
+
+Definition flat_hppsrange (r : hppsrange) : list Z :=
+  [zn (pr_log2_max_ts r); zb (pr_cross_comp r); zb (pr_cqp_list_enabled r); zn (pr_diff_cu_cqp_depth r);
+   zn (pr_cqp_list_len_minus1 r)] ++ flat_zlist (pr_cb_list r) ++ flat_zlist (pr_cr_list r)
+  ++ [zn (pr_log2_sao_luma r); zn (pr_log2_sao_chroma r)].
+
+Definition flat_hppsscc (s : hppsscc) : list Z :=
+  [zb (ps_curr_pic_ref s); zb (ps_ract s); zb (ps_slice_act_qp_present s); ps_act_y s; ps_act_cb s;
+   ps_act_cr s; zb (ps_pal_init_present s); zn (ps_num_pal_init s); zb (ps_mono s); zn (ps_luma_bd s);
+   zn (ps_chroma_bd s)] ++ flat_list flat_nlist (ps_pal_init s).
+
+Definition flat_hpps (p : hpps) : list Z :=
+  [zn (pp_id p); zn (pp_sps_id p); zb (pp_dep_slices p); zb (pp_output_flag_present p);
+   zn (pp_num_extra_bits p); zb (pp_sign_hiding p); zb (pp_cabac_init_present p); zn (pp_l0 p); zn (pp_l1 p);
+   pp_init_qp p; zb (pp_constrained_intra p); zb (pp_transform_skip p); zb (pp_cu_qp_delta p);
+   zn (pp_diff_cu_qp_delta_depth p); pp_cb_qp p; pp_cr_qp p; zb (pp_slice_chroma_qp_present p);
+   zb (pp_weighted_pred p); zb (pp_weighted_bipred p); zb (pp_transquant_bypass p); zb (pp_tiles p);
+   zb (pp_entropy_sync p); zn (pp_tile_cols p); zn (pp_tile_rows p); zb (pp_uniform p)]
+  ++ flat_nlist (pp_col_widths p) ++ flat_nlist (pp_row_heights p)
+  ++ [zb (pp_lf_across_tiles p); zb (pp_lf_across_slices p); zb (pp_dbf_control p);
+      zb (pp_dbf_override_enabled p); zb (pp_dbf_disabled p); pp_beta p; pp_tc p; zb (pp_scaling_data p);
+      zb (pp_lists_mod p); zn (pp_log2_par_merge p); zb (pp_slice_ext_present p); zb (pp_ext_present p);
+      zb (pp_range_flag p)] ++ flat_opt flat_hppsrange (pp_range p)
+  ++ [zb (pp_ml_flag p); zb (pp_3d_flag p); zb (pp_scc_flag p)] ++ flat_opt flat_hppsscc (pp_scc p)
+  ++ [zn (pp_ext4 p)] ++ flat_blist (pp_ext_data p).
+
+Definition flat_hpwt (w : hpwt) : list Z :=
+  [zb (pw_luma_flag w); zb (pw_chroma_flag w); pw_dlw w; pw_lo w; pw_dcw0 w; pw_dcw1 w; pw_dco0 w; pw_dco1 w].
+
+Definition flat_hslice (h : hslice) : list Z :=
+  [zn (s_type h); zb (s_first h); zb (s_no_output_prior h); zn (s_pps_id h); zb (s_dependent h);
+   zn (s_address h); zb (s_pic_output h); zn (s_colour_plane h); zn (s_poc_lsb h); zb (s_st_sps_flag h)]
+  ++ flat_hrps (s_st_rps h)
+  ++ [zn (s_st_idx h); zn (s_num_lt_sps h); zn (s_num_lt_pics h)] ++ flat_list flat_hlt (s_lt h)
+  ++ [zb (s_tmvp h); zb (s_sao_luma h); zb (s_sao_chroma h); zb (s_override h); zn (s_l0 h); zn (s_l1 h)]
+  ++ flat_opt (fun r => let '(f0, e0, f1, e1) := r in [zb f0] ++ flat_nlist e0 ++ [zb f1] ++ flat_nlist e1)
+              (s_rplm h)
+  ++ [zb (s_mvd_l1_zero h); zb (s_cabac_init h); zb (s_collocated_from_l0 h); zn (s_collocated_ref_idx h)]
+  ++ flat_opt (fun r => let '(ld, dc, w0, w1) := r in
+                        [zn ld; dc] ++ flat_list flat_hpwt w0 ++ flat_list flat_hpwt w1) (s_pwt h)
+  ++ [zn (s_five_minus h); zb (s_use_integer_mv h); s_qp_delta h; s_cb h; s_cr h; s_act_y h; s_act_cb h;
+      s_act_cr h; zb (s_cu_chroma_qp_enabled h); zb (s_dbf_override h); zb (s_dbf_disabled h); s_beta h;
+      s_tc h; zb (s_lf_across h); zn (s_num_entry h); zn (s_offset_len_minus1 h)]
+  ++ flat_nlist (s_entry_points h) ++ [zn (s_ext_len h)] ++ flat_nlist (s_ext_bytes h) ++ [zn (s_size h)].
